@@ -355,6 +355,15 @@ def alias_histories():
                                   ["add_surrogate", "n2", AL]],
         "update-with-kept": [["add_surrogate", "n1", T], ["update_surrogate", "n1", AL, None, ["w1"], None],
                              ["add_surrogate", "n2", AL, None, ["o2"], None]],
+        # the model edits the stoichiometries of its surrogates in place (`make_parameter_dynamic`, `remove_variable`):
+        # the kept object must not see that
+        "inplace:dynamic": [["add_surrogate", "n1", {**sur(["o1"], ("x",), "o1"), "tag": "T"}],
+                            ["make_parameter_dynamic", "k", None, [["o1", "3"]]],
+                            ["add_surrogate", "n2", {**sur(["o1"], ("x",), "o1"), "alias": "T"}, None, ["o2"], None],
+                            ["q", "stoich", ["1", "2", "3", "1"], "1"]],
+        "inplace:strip": [["add_surrogate", "n1", {**sur(["o1"], ("x",), "o1"), "tag": "T"}], ["remove_variable", "y", True],
+                          ["update_surrogate", "s", {**sur(["o1"], ("x",), "o1"), "alias": "T"}, None, ["so", "sf"], None],
+                          ["q", "stoich", ["1", "2", "3", "1"], "1"]],
         "update-other-with-kept": [["add_surrogate", "n1", T], ["add_surrogate", "n2", sur(["o4"])],
                                    ["update_surrogate", "n2", AL, ["y"], ["o5"], None], ["update_surrogate", "n1", AL, None, None, None]],
     }
